@@ -14,7 +14,7 @@ import numpy as np
 
 from ..poly import z3mod, Poly
 from ..dromodels import CompiledDRO, dro_viol, dro_hold, dro_row_terms, piece_polys
-from ..drogen import members, kl_members, lookup
+from ..drogen import members, kl_members, lookup, MAY_RAISE
 from ..smt import HarnessError, fval
 from ..harness import finding
 from ..util import quiet
@@ -59,7 +59,7 @@ def run_case(case, ses):
     except HarnessError:
         raise
     except Exception as e:
-        if name.startswith('rand'):
+        if name.startswith('rand') or name in MAY_RAISE:
             # a seeded random member that rsome itself rejects (raises while formulating) carries no information
             ses.stats.kinds['member-rejected-by-rsome'] = ses.stats.kinds.get('member-rejected-by-rsome', 0) + 1
             if len(ses.stats.notes) < 10:
@@ -334,6 +334,8 @@ def replay(data, verbose=False, want_info=False, margin=None):
                     for k, vert in enumerate(sv[s]):
                         vals = [q.subs(vert).constant() for q in inst]
                         tot += w['w%d_%d' % (s, k)] * max(vals)
+                if sense == 'eq':
+                    tot = abs(tot)
                 if worst is None or tot > worst:
                     worst = tot
                     wdesc = 'distribution %s on support vertices %s' % (
